@@ -14,7 +14,7 @@ from translator import frames as tr
 ID = "C06"
 PROPS = "props/C06.v"
 GENERATED = [tr.OUT]
-CASE_DEPS = ["lib/CaseUtil.vo", "model/Frames.vo", "model/Stacked.vo"]
+CASE_DEPS = ["lib/CaseUtil.vo", "model/Frames.vo", "model/Stacked.vo", "lib/StackedCase.vo"]
 ALLOWED_AXIOMS = {
     "sig_forall_dec", "sig_not_dec", "functional_extensionality_dep",
     "ClassicalDedekindReals.sig_forall_dec", "ClassicalDedekindReals.sig_not_dec",
@@ -480,6 +480,17 @@ def run_sim(case, m=None) -> dict:
         cur["update_map"] = [(int(a), int(b)) for a, b in zip(um.lhs[0], um.lhs[1])]
         return um
 
+    OrigEquator = st_eval.Equator
+
+    class RecEquator(OrigEquator):
+        __slots__ = ()
+
+        def eval(self, data_array, columns=None):
+            out = super().eval(data_array, columns)
+            cur["last_eq"] = [np.array(np.broadcast_to(np.asarray(a, dtype=float), np.shape(self._columns)),
+                                       dtype=float).copy() for a in out]
+            return out
+
     OrigTerm = st_sim.Terminator
 
     class RecTerminator(OrigTerm):
@@ -512,8 +523,10 @@ def run_sim(case, m=None) -> dict:
         cur["final_guess"] = np.array(final, dtype=float).copy()
         try:
             cur["final_func"] = np.array(ev_f(final, data), dtype=float).copy()
+            cur["per_equation"] = [a.copy() for a in cur.get("last_eq", [])]
         except Exception as e:  # noqa
             cur["final_func"] = None
+            cur["per_equation"] = None
         cur["solver_settings"] = {k: kw.get(k) for k in ("func_tolerance", "step_tolerance", "norm_order")}
         return final, status
 
@@ -538,6 +551,7 @@ def run_sim(case, m=None) -> dict:
         P.set(st_jac.Jacobian, "_populate_map", populate_map)
         P.set(st_eval, "_create_update_map", create_update_map)
         P.set(st_sim, "Terminator", RecTerminator)
+        P.set(st_eval, "Equator", RecEquator)
         P.set(st_sim._nq, "damped_newton", newton)
         P.set(fr_mod.SplitFrame, "write_frame_data_to_main_dataslate", wb_split)
         kw = {}
@@ -728,8 +742,11 @@ def check_property(case, rec) -> tuple[list[Failure], dict]:
         except Exception:  # noqa
             continue
         b0, b1 = int(db[name].start.serial), int(db[name].end.serial)
+        is_log = name.startswith("x") and name[1:].isdigit() and spec["log"][int(name[1:])]
         for t in list(range(min(a0, b0), s0)) + list(range(e0 + 1, max(a1, b1) + 1)):
-            if not _same(_val(ser, t), _val(db[name], t)):
+            a, b = _val(ser, t), _val(db[name], t)
+            # (log-variables pass through exp(log(.)) when the initial guess is simulated: equal up to rounding)
+            if not _same(a, b) and not (is_log and abs(a - b) <= 1e-13 * abs(b)):
                 fails.append(Failure(f"outside-span:{shape}", "a cell outside the simulated span changed",
                                      dict(inp, name=name, offset=t - s0), _val(ser, t), _val(db[name], t)))
                 break
@@ -752,8 +769,10 @@ def check_property(case, rec) -> tuple[list[Failure], dict]:
     has_nan = any(isinstance(v, float) and v != v for cells in case["values"].values() for v in cells.values())
     # (the first-order simulator keeps exogenous variables at their steady values, so time-varying exogenous paths
     #  are not "the same inputs" for it)
+    # (with a plan and several frames the endogenized anticipated shocks are re-solved in every frame, so the
+    #  returned shocks are not one consistent set of inputs for a single first-order run)
     fo_applicable = spec["linear"] and all_ok and not has_nan and "w" not in case["values"] and (
-        terminal == "first_order" or hi <= 0)
+        terminal == "first_order" or hi <= 0) and (not case["plan"] or len(frames) == 1)
     if fo_applicable:
         import irispie as ir
         db2 = db.copy()
@@ -783,3 +802,371 @@ def check_property(case, rec) -> tuple[list[Failure], dict]:
                                      "first-order simulation of the same inputs", dict(inp, name=f"x{i}", offset=t - s0),
                                      a, b, "simulate(..., method='stacked_time') vs simulate(..., method='first_order')"))
     return fails, stats
+
+
+# =====================================================================================
+# 5. Coq rendering of one recorded simulation (lib/StackedCase.v: sim_case)
+# =====================================================================================
+
+HEADER = """From Coq Require Import ZArith List Bool PrimFloat.
+From Verif Require Import lib.Arith lib.CaseUtil model.Frames model.Stacked lib.StackedCase.
+Import ListNotations.
+Open Scope Z_scope.
+Set Printing Width 1000000.
+Set Printing Depth 1000000.
+"""
+
+
+def _spot(s) -> str:
+    return f"({coq_z(s[0])}, {coq_z(s[1])})"
+
+
+def _spots(l) -> str:
+    return coq_list([_spot(s) for s in l])
+
+
+def _zs(l) -> str:
+    return coq_list([coq_z(int(x)) for x in l])
+
+
+def _oz(x) -> str:
+    return "None" if x is None else f"(Some {coq_z(int(x))})"
+
+
+class _Defs:
+    """Arrays are emitted as many short definitions (long list literals are slow to parse)."""
+
+    def __init__(self, prefix):
+        self.prefix = prefix
+        self.lines = []
+        self.k = 0
+
+    def row(self, vals) -> str:
+        nm = f"{self.prefix}_r{self.k}"
+        self.k += 1
+        self.lines.append(f"Definition {nm} : list float := {coq_list([coq_float(float(v)) for v in vals])}.")
+        return nm
+
+    def arr(self, a) -> str:
+        a = np.asarray(a, dtype=float)
+        names = [self.row(a[i, :]) for i in range(a.shape[0])]
+        nm = f"{self.prefix}_a{self.k}"
+        self.k += 1
+        self.lines.append(f"Definition {nm} : arr := {coq_list(names)}.")
+        return nm
+
+    def define(self, typ, body) -> str:
+        nm = f"{self.prefix}_d{self.k}"
+        self.k += 1
+        self.lines.append(f"Definition {nm} : {typ} := {body}.")
+        return nm
+
+
+def _registers(case, names, nbase):
+    regs = {r: {} for r in ("exogenized_anticipated", "endogenized_anticipated", "exogenized_unanticipated",
+                            "endogenized_unanticipated")}
+    for reg, off, name in case["plan"]:
+        regs[reg].setdefault(name, [False] * nbase)[off] = True
+    out = {}
+    for r, rows in regs.items():
+        out[r] = coq_list([f"({coq_z(names.index(nm))}, {coq_list([coq_bool(b) for b in flags])})"
+                           for nm, flags in rows.items()])
+    return out
+
+
+def coq_sim(case, rec, prefix) -> tuple[str, str]:
+    """Returns (definitions text, name of the sim_case)."""
+    D = _Defs(prefix)
+    cr = rec["create"]
+    frs = rec["frames_rec"]
+    names = cr["names"]
+    spec = case["spec"]
+    nbase = len(cr["base_periods"])
+    uq = frs[0]["uqids"]
+    data0 = cr["data"]
+    ucut = "None"
+    if uq and cr["base_columns"]:
+        ucut = f"(Some {D.arr(data0[uq, :][:, cr['base_columns']])})"
+    pcut = "None"
+    plan_txt = "None"
+    if case["plan"]:
+        rows = []
+        for q in uq:
+            flags = [False] * nbase
+            for reg, off, name in case["plan"]:
+                if reg == "endogenized_unanticipated" and name == names[q]:
+                    flags[off] = True
+            rows.append(coq_list([coq_bool(b) for b in flags]))
+        pcut = f"(Some {coq_list(rows)})"
+        R = _registers(case, names, nbase)
+        plan_txt = (f"(Some (mkPlan {R['exogenized_anticipated']} {R['endogenized_anticipated']} "
+                    f"{R['exogenized_unanticipated']} {R['endogenized_unanticipated']}))")
+    fobs = []
+    for (st, en, se, fi, la, sl, ns, sli, ssl, zsl, _tp) in cr["frames"]:
+        fobs.append(f"(mkFrameObs {coq_z(st)} {coq_z(en)} {coq_z(se)} {coq_z(fi)} {coq_z(la)} {coq_z(sl)} {coq_z(ns)} "
+                    f"({coq_z(sli[0])}, {_oz(sli[1])}) ({coq_z(ssl[0])}, {_oz(ssl[1])}) ({coq_z(zsl[0])}, {_oz(zsl[1])}))")
+    endogenous = [names.index(f"x{i}") for i in range(spec["n"])]
+    term = "None"
+    t0 = frs[0].get("term")
+    if t0 is not None:
+        logly = sorted(q for q, sflag in frs[0]["qid_to_logly"].items() if sflag)
+        term = f"(Some ({_zs(t0['curr_xi_qids'])}, {coq_z(t0['max_lead'])}, {_zs(logly)}))"
+    setup = D.define("sim_setup", f"mkSetup {coq_z(cr['periods'][0])} {coq_z(cr['base_columns'][0])} {_zs(uq)} "
+                                  f"{_zs(endogenous)} {plan_txt} {term}")
+    frecs = []
+    for fr in frs:
+        t = fr.get("term")
+        if t is None:
+            tobs = "None"
+        else:
+            tj = coq_list([f"({coq_z(a)}, {coq_z(b)})" for a, b in zip(*t["tjm"])])
+            tobs = (f"(Some (mkTermObs {_spots(t['transition_vector'])} {_spots(t['equation_tokens'])} "
+                    f"{_zs(t['terminal_columns'])} {_spots(t['terminal_wrt_spots'])} {_zs(t['terminal_column_index'])} "
+                    f"{_spots(t['terminit_spots'])} {coq_z(t['first_terminal'])} {tj}))")
+        j = fr["jac"]
+        per_eq = fr.get("per_equation")
+        ff = fr.get("final_func")
+        if per_eq is None or ff is None:
+            per_eq, ff = [], []
+        pe = D.define("arr", coq_list([D.row(a) for a in per_eq]))
+        stk = D.row(ff)
+        jm = coq_list([f"({coq_z(a)}, {coq_z(b)}, {coq_z(c)}, {coq_z(d)})" for a, b, c, d in j["map"]])
+        jm = D.define("list (Z * Z * Z * Z)", jm)
+        wt = D.define("list (list spot)", coq_list([_spots(tk) for tk in j["wrt_tokens"]]))
+        ex = "None" if fr["exogenized_spots"] is None else f"(Some {_spots(fr['exogenized_spots'])})"
+        frecs.append(D.define("frame_rec",
+                              f"mkFrameRec {D.arr(fr['after'])} {_zs(fr['columns_to_run'])} {_spots(fr['wrt_spots'])} {ex} "
+                              f"{_spots(fr['update_map'])} {wt} {_spots(j['lhs_tokens'])} {jm} "
+                              f"({coq_z(j['shape'][0])}, {coq_z(j['shape'][1])}) {tobs} {pe} {stk}"))
+    nm = D.define("sim_case",
+                  f"mkSimCase {coq_bool(case['method'] == 'period_by_period')} {_zs(cr['base_periods'])} "
+                  f"{_zs(cr['base_columns'])} {ucut} {pcut} {coq_list(fobs)} {setup} "
+                  f"{D.arr(frs[0]['input_data_array'])} {D.arr(frs[0]['main_before'])} {coq_list(frecs)} "
+                  f"{D.arr(frs[-1]['main_after'])}")
+    return "\n".join(D.lines), nm
+
+
+def shard_text(items) -> str:
+    """items: [(case, rec)]"""
+    parts = [HEADER]
+    nms = []
+    for k, (case, rec) in enumerate(items):
+        txt, nm = coq_sim(case, rec, f"s{k}")
+        parts.append(txt)
+        nms.append(nm)
+    parts.append(f"Definition cases : list sim_case := {coq_list(nms)}.")
+    parts.append("Eval vm_compute in (failing_sims cases 0).")
+    return "\n".join(parts) + "\n"
+
+
+CHECK_NAMES = {1: "base_columns", 2: "frames (break points, periods, columns, slices)", 3: "final main array (write-back)",
+               10: "columns_to_run", 11: "wrt_spots", 12: "exogenized_spots", 13: "update map", 14: "jacobian lhs tokens",
+               15: "jacobian map", 16: "jacobian shape", 17: "stacked residual order", 18: "frame data after simulate_frame",
+               19: "number of frames", 20: "terminal columns", 21: "terminal wrt spots", 22: "terminal column index",
+               23: "terminit spots", 24: "first terminal", 25: "terminal jacobian map", 29: "terminator presence"}
+
+
+# =====================================================================================
+# 6. correspondence: model evaluated in Coq vs what Simultaneous.simulate built (exact), paths vs first order (tol)
+# =====================================================================================
+
+KINDS = ["linear", "linear", "nonlinear", "nonlinear", "backward_linear", "backward_nonlinear"]
+
+
+def _jsonable_case(case) -> dict:
+    import json
+    return json.loads(json.dumps(case, default=lambda o: None if (isinstance(o, float) and o != o) else str(o))
+                      .replace("NaN", '"nan"'))
+
+
+def _restore_case(c) -> dict:
+    """Inverse of the JSON round trip of a case (offset keys back to int, "nan" back to NaN)."""
+    c = dict(c)
+    vals = {}
+    for name, cells in c["values"].items():
+        vals[name] = {}
+        for off, v in cells.items():
+            if v == "nan":
+                v = float("nan")
+            vals[name][int(off)] = tuple(v) if isinstance(v, list) else v
+    c["values"] = vals
+    c["plan"] = [tuple(p) for p in c["plan"]]
+    sp = c["spec"]
+    for e in sp["eqs"]:
+        for t in e["terms"]:
+            t["f"] = [tuple(x) for x in t["f"]]
+        e["sq"] = [tuple(x) for x in e["sq"]]
+    return c
+
+
+def gen_batch(rng, n_models, per_model):
+    """Yields (case, model) for models irispie can solve."""
+    made = 0
+    tries = 0
+    while made < n_models and tries < 5 * n_models + 20:
+        tries += 1
+        spec = gen_model(rng, rng.choice(KINDS))
+        m = build_model(spec)
+        if m is None:
+            continue
+        made += 1
+        for _ in range(per_model):
+            yield gen_case(rng, spec), m
+
+
+def correspondence(ctx) -> CorrResult:
+    rng = ctx.rng
+    res = CorrResult()
+    n_models = ctx.scale(70, 2000)
+    per_model = ctx.scale(3, 4)
+    per_shard = 12
+    items = []
+    dist = {"method": {}, "terminal": {}, "initial_guess": {}, "kind": {}, "frames": {}, "plan": 0, "log_variables": 0,
+            "status": {}, "simulate_raised": 0, "first_order_compared": 0, "residual_checks": 0,
+            "max_residual": 0.0, "max_first_order_diff": 0.0}
+    keyset = set()
+    tol_fail = []
+    for case, m in gen_batch(rng, n_models, per_model):
+        rec = run_sim(case, m)
+        if "error" in rec or "skip" in rec or not rec.get("frames_rec"):
+            dist["simulate_raised"] += 1
+            continue
+        items.append((case, rec))
+        spec = case["spec"]
+        kind = ("backward_" if spec["backward"] else "") + ("linear" if spec["linear"] else "nonlinear")
+        for k, v in (("method", case["method"]), ("terminal", case["terminal"]), ("initial_guess", case["initial_guess"]),
+                     ("kind", kind), ("frames", str(len(rec["frames_rec"])))):
+            dist[k][v] = dist[k].get(v, 0) + 1
+        dist["plan"] += bool(case["plan"])
+        dist["log_variables"] += any(spec["log"])
+        for st in rec["info"]["exit_status"]:
+            dist["status"][str(st)] = dist["status"].get(str(st), 0) + 1
+        if len(rec["frames_rec"]) >= 2 or case["plan"]:
+            keyset.add(repr(_jsonable_case(case)))
+        # tolerance part of the tie: the property residuals and the first-order path
+        fails, st = check_property(case, rec)
+        dist["first_order_compared"] += st["fo_compared"]
+        dist["residual_checks"] += st["residuals"]
+        dist["max_residual"] = max(dist["max_residual"], st["max_residual"])
+        dist["max_first_order_diff"] = max(dist["max_first_order_diff"], st["max_fo_diff"])
+        for f in fails:
+            tol_fail.append((case, f))
+    res.evaluations = len(items)
+    res.distinct_nontrivial = len(keyset)
+    res.distribution = dist
+    res.rule = ("one generated model (1-4 transition variables, lags/leads up to 2, linear / quadratic / log-variable "
+                "equations, optional exogenous and measurement variable) built with Simultaneous.from_string + steady + solve, "
+                "one input databox (steady + unanticipated and anticipated shocks at random dates, exogenous path, perturbed "
+                "initial and terminal data, optional exactly identified plan) and one call of Simultaneous.simulate "
+                "(stacked_time / period_by_period, terminal and initial_guess in {first_order, data}); everything the call "
+                "builds (frames, wrt_spots, index maps, terminator indices, stacked residual, frame arrays, final array) is "
+                "compared with the model evaluated in Coq; non-trivial = at least two frames or a plan; distinct = distinct case")
+    res.samples = [{"model": model_source(c["spec"]), "case": {k: v for k, v in _jsonable_case(c).items() if k != "spec"},
+                    "frames": [list(f[:6]) for f in r["create"]["frames"]],
+                    "wrt_spots_first_frame": r["frames_rec"][0]["wrt_spots"][:12],
+                    "status": [str(s) for s in r["info"]["exit_status"]]} for c, r in items[:3]]
+    shards = [items[i:i + per_shard] for i in range(0, len(items), per_shard)]
+    texts = [shard_text(sh) for sh in shards]
+    results = core.run_cases(ctx, texts)
+    res.shards = len(texts)
+    for k, (ok, out) in enumerate(results):
+        sh = shards[k]
+        if not ok:
+            res.disagreements.append(Disagreement(f"cases shard {k} does not evaluate", None, out[-800:], None))
+            continue
+        bodies = core.parse_eval_lists(out)
+        if len(bodies) != 1:
+            res.disagreements.append(Disagreement(f"cases shard {k}: unparsable output", None, out[-600:], None))
+            continue
+        body = bodies[0]
+        if body in ("[]", "nil"):
+            continue
+        import re
+        for mm in re.finditer(r"\((\d+)%nat, \[(.*?)\]\)(?=; \(\d+%nat, \[|\]$)", body):
+            i = int(mm.group(1))
+            checks = re.findall(r"\((\d+)%nat, (\d+)%nat\)", mm.group(2))
+            case = sh[i][0]
+            what = "; ".join(f"frame {a}: {CHECK_NAMES.get(int(b), b)}" if int(a) != 999 else CHECK_NAMES.get(int(b), b)
+                             for a, b in checks[:6])
+            res.disagreements.append(Disagreement(f"{case['method']}: {what}", _jsonable_case(case),
+                                                  "model differs on: " + what, None))
+        if not res.disagreements and body not in ("[]", "nil"):
+            res.disagreements.append(Disagreement(f"cases shard {k}: unparsed failures", None, body[:600], None))
+    for case, f in tol_fail[:20]:
+        res.disagreements.append(Disagreement(f"property check: {f.key}", _jsonable_case(case), f.what,
+                                              {"observed": f.observed, "required": f.required}))
+    res.notes.append(f"solver statuses over all frames: {dist['status']}")
+    return res
+
+
+# =====================================================================================
+# 7. falsifier
+# =====================================================================================
+
+def _with_case(f: Failure, case) -> Failure:
+    inp = dict(f.input) if isinstance(f.input, dict) else {"input": f.input}
+    inp["case_full"] = _jsonable_case(case)
+    f.input = inp
+    if not f.repro:
+        f.repro = ("from harness import C06 as H; c = H._restore_case(failure['input']['case_full']); "
+                   "r = H.run_sim(c); print(H.check_property(c, r))")
+    return f
+
+
+def falsify(ctx, hints):
+    rng = ctx.rng
+    fails: list[Failure] = []
+    info = {"simulations": 0, "frames_success": 0, "frames_failed": 0, "residuals": 0, "fo_compared": 0,
+            "max_residual": 0.0, "max_fo_diff": 0.0, "simulate_raised": 0, "from_hints": 0}
+
+    def one(case, m=None):
+        rec = run_sim(case, m)
+        if "error" in rec or "skip" in rec or not rec.get("frames_rec"):
+            info["simulate_raised"] += 1
+            return
+        info["simulations"] += 1
+        fs, st = check_property(case, rec)
+        for k in ("frames_success", "frames_failed", "residuals", "fo_compared"):
+            info[k] += st[k]
+        info["max_residual"] = max(info["max_residual"], st["max_residual"])
+        info["max_fo_diff"] = max(info["max_fo_diff"], st["max_fo_diff"])
+        for f in fs:
+            fails.append(_with_case(f, case))
+
+    # start from the disagreements themselves
+    for d in hints.get("disagreements", [])[:20]:
+        c = d.get("input")
+        if isinstance(c, dict) and "spec" in c:
+            try:
+                one(_restore_case(c))
+                info["from_hints"] += 1
+            except Exception:  # noqa
+                pass
+    n_models = ctx.scale(25, 400)
+    if hints.get("broken"):
+        n_models *= 2
+    for case, m in gen_batch(rng, n_models, 3):
+        one(case, m)
+        if len(fails) > 30:
+            break
+    seen, uniq = set(), []
+    for f in fails:
+        if f.key not in seen:
+            seen.add(f.key)
+            uniq.append(f)
+    return uniq, info
+
+
+def replay(ctx, failure: dict):
+    c = failure.get("input", {}).get("case_full")
+    if not c:
+        return None
+    case = _restore_case(c)
+    rec = run_sim(case)
+    if "error" in rec or "skip" in rec:
+        return None
+    fs, _ = check_property(case, rec)
+    for f in fs:
+        if f.key == failure["key"]:
+            return _with_case(f, case)
+    return None
